@@ -246,3 +246,65 @@ Qed.
 (* the size of a padded answer, as C10_Model.pad_for computes it *)
 Lemma enc_varint_len f v : (length (enc_varint f v) <= S f)%nat.
 Proof. revert v; induction f as [|f IH]; intros v; cbn [enc_varint]; [simpl; lia|]. destruct (v <? 128); simpl; [lia|]. specialize (IH (v / 128)). lia. Qed.
+
+(* ---------- whenDone of localProcess: the exit notice reaches every registered callback exactly once,
+   whether the registration precedes or follows the exit ---------- *)
+Lemma wd_run_snoc acts a : wd_run (acts ++ [a]) = wd_step (wd_run acts) a.
+Proof. unfold wd_run. rewrite fold_left_app. reflexivity. Qed.
+
+Lemma wd_count_app k l1 l2 : wd_count k (l1 ++ l2) = (wd_count k l1 + wd_count k l2)%nat.
+Proof. unfold wd_count. rewrite filter_app, app_length. reflexivity. Qed.
+
+Lemma wd_regs_snoc k acts a :
+  wd_regs k (acts ++ [a]) = (wd_regs k acts + (if wd_is_reg k a then 1 else 0))%nat.
+Proof. unfold wd_regs. rewrite filter_app, app_length. simpl. destruct (wd_is_reg k a); reflexivity. Qed.
+
+Definition wd_inv (acts : list wd_action) : Prop :=
+  let s := wd_run acts in
+  (forall k, (wd_count k (wd_fired s) + wd_count k (wd_waiting s))%nat = wd_regs k acts) /\
+  (wd_exited s = true -> wd_waiting s = []) /\
+  (wd_exited s = false -> wd_fired s = []) /\
+  (wd_exited s = existsb wd_is_exit acts).
+
+Lemma wd_inv_all : forall acts, wd_inv acts.
+Proof.
+  induction acts as [|a acts IH] using rev_ind.
+  - unfold wd_inv. simpl. repeat split; auto.
+  - destruct IH as (Hc & Hw & Hf & He). unfold wd_inv. rewrite wd_run_snoc.
+    destruct (wd_run acts) as [ex wt fd] eqn:E. simpl in *.
+    destruct a as [j|]; destruct ex; simpl.
+    + rewrite (Hw eq_refl) in *. repeat split; auto; try discriminate.
+      * intro k. rewrite wd_regs_snoc, <- Hc, wd_count_app. simpl.
+        unfold wd_count. simpl. destruct (N.eqb k j); simpl; lia.
+      * rewrite existsb_app. simpl. rewrite <- He. reflexivity.
+    + repeat split; auto; try discriminate.
+      * intro k. rewrite wd_regs_snoc, <- Hc, wd_count_app. simpl.
+        unfold wd_count. simpl. destruct (N.eqb k j); simpl; lia.
+      * rewrite existsb_app. simpl. rewrite <- He. reflexivity.
+    + repeat split; auto; try discriminate.
+      * intro k. rewrite wd_regs_snoc, <- Hc. simpl. lia.
+      * rewrite existsb_app. simpl. rewrite <- He. reflexivity.
+    + repeat split; auto; try discriminate.
+      * intro k. rewrite wd_regs_snoc, <- Hc, wd_count_app. simpl. unfold wd_count. simpl. lia.
+      * rewrite existsb_app. simpl. rewrite Bool.orb_true_r. reflexivity.
+Qed.
+
+(* for EVERY interleaving of registrations and the exit: once the exit has happened every callback has run
+   exactly as often as it was registered (once per registration) and none is left parked; before the exit
+   none has run *)
+Lemma exit_notice_any_order_proof : forall acts,
+  (In WdExit acts ->
+     (forall k, wd_count k (wd_fired (wd_run acts)) = wd_regs k acts) /\ wd_waiting (wd_run acts) = []) /\
+  (~ In WdExit acts -> wd_fired (wd_run acts) = []).
+Proof.
+  intro acts. destruct (wd_inv_all acts) as (Hc & Hw & Hf & He). split.
+  - intro Hin. assert (Hx : wd_exited (wd_run acts) = true).
+    { rewrite He. apply existsb_exists. exists WdExit. split; auto. }
+    specialize (Hw Hx). split; auto. intro k. rewrite <- Hc, Hw. unfold wd_count. simpl. lia.
+  - intro Hn. apply Hf. rewrite He. destruct (existsb wd_is_exit acts) eqn:Ex; auto.
+    apply existsb_exists in Ex. destruct Ex as (x & Hin & Hx). destruct x; try discriminate. contradiction.
+Qed.
+
+(* the two orders of runClient: its callback (registration 0) runs, so the exit notice is part of both schedules *)
+Lemma runner_notice_both_orders_proof : forall early, runner_notice early = [ExitNotice].
+Proof. intros []; reflexivity. Qed.
